@@ -2,6 +2,7 @@
 
 The injected fault is damaged input arriving at the two input seams (the simulated terminal and the source store), interleaved
 with good input; the invariants are containment (ok or Errors.Error), the loop staying alive, recovery and termination."""
+import os
 import random
 import sys
 from typing import Any
@@ -273,6 +274,10 @@ class C07Runner:
 
 	def project(self) -> Project:
 		proj = Project(self.pool, tag='c07')
+		# things an import can run into that are neither a module nor absent: an extension-less regular file on the path, a symlink loop
+		proj.sc.write('src/NOTES', b'not a package\n')
+		if not os.path.lexists(proj.sc.path('src/selfloop.py')):
+			os.symlink('selfloop.py', proj.sc.path('src/selfloop.py'))
 		if self.cache in ('lib', 'warm'):
 			for rel, (content, mtime) in library_seed().items():
 				proj.sc.write(rel, content, mtime)
